@@ -30,6 +30,7 @@ type World struct {
 	maxCex   int
 	noMerge  bool
 	trace    bool
+	branchTimeout int
 }
 
 // packages whose functions are executed from SSA when no model is registered
@@ -151,6 +152,7 @@ func (w *World) explore(fn *ssa.Function, workers int, maxPaths int) *HarnessRep
 			if err != nil {
 				panic(err)
 			}
+			sol.branchTimeout = w.branchTimeout
 			defer sol.Close()
 			for {
 				mu.Lock()
@@ -268,6 +270,7 @@ func main() {
 	smtlog := flag.String("smtlog", "", "log solver input of -path run to this file")
 	flag.StringVar(&cexDir, "cexdir", "", "write counterexample files here")
 	maxCex := flag.Int("maxcex", 3, "counterexample files per harness")
+	branchTO := flag.Int("branch-timeout", 4000, "solver budget (ms) for branch-feasibility queries; unknown keeps the branch")
 	known := flag.String("known", "", "known-finding modes: id=exclude|only, comma separated")
 	flag.Parse()
 
@@ -313,7 +316,7 @@ func main() {
 		os.Exit(2)
 	}
 	prog, spkgs := ssautil.AllPackages(pkgs, ssa.InstantiateGenerics)
-	w := &World{prog: prog, follow: followPrefixes, maxSteps: 3000000, solver: *solver, timeout: *timeout, tier: *tier, maxCex: *maxCex}
+	w := &World{prog: prog, follow: followPrefixes, maxSteps: 3000000, solver: *solver, timeout: *timeout, tier: *tier, maxCex: *maxCex, branchTimeout: *branchTO}
 	for _, kv := range strings.Split(*known, ",") {
 		if i := strings.Index(kv, "="); i > 0 {
 			knownModes[kv[:i]] = kv[i+1:]
